@@ -826,6 +826,10 @@ func (m *Mirror) handleFuturePrevoteProofs(
 		return tmconsensus.HandleVoteProofsNoNewSignatures
 	case tmi.AddVoteInternalError:
 		return tmconsensus.HandleVoteProofsInternalError
+	case tmi.AddVoteConflict:
+		// It stopped being a future view while we were working on it,
+		// so start over with a fresh view lookup.
+		return m.HandlePrevoteProofs(ctx, p)
 	default:
 		panic(fmt.Errorf(
 			"BUG: received unexpected AddVoteResult %d", result,
@@ -1194,6 +1198,10 @@ func (m *Mirror) handleFuturePrecommitProofs(
 		return tmconsensus.HandleVoteProofsNoNewSignatures
 	case tmi.AddVoteInternalError:
 		return tmconsensus.HandleVoteProofsInternalError
+	case tmi.AddVoteConflict:
+		// It stopped being a future view while we were working on it,
+		// so start over with a fresh view lookup.
+		return m.handlePrecommitProofs(ctx, p, vlReq.Reason)
 	default:
 		panic(fmt.Errorf(
 			"BUG: received unexpected AddVoteResult %d", result,
